@@ -31,7 +31,7 @@ void messageq_init(messageq_t *mq, void *basep, size_t base_len, size_t msg_len)
 void *messageq_claim(messageq_t *mq)
 {
 	/* get permission to allocate a message */
-	int num_free = atomic_fetch_sub(&mq->num_free, 1);
+	int num_free = (signed char) atomic_fetch_sub(&mq->num_free, 1);
 	if (num_free <= 0) {
 		atomic_fetch_add(&mq->num_free, 1);
 		return NULL;
